@@ -103,6 +103,11 @@ func vkC06Reply(cs vkSrvCase, path vkPath, raw []byte, decodable bool, r vkResul
 	}
 	// required verdicts
 	switch {
+	case p.Opcode != 0 && (!decodable || vkRealQD(raw) != 1):
+		// both clauses apply and the statement gives neither precedence: either verdict satisfies it
+		if m.Rcode != dns.RcodeNotImplemented && m.Rcode != dns.RcodeFormatError {
+			return fmt.Sprintf("non-query opcode %d with bad counts answered with %s, NOTIMP or FORMERR required", p.Opcode, dns.RcodeToString[m.Rcode]), ""
+		}
 	case p.Opcode != 0:
 		if m.Rcode != dns.RcodeNotImplemented {
 			return fmt.Sprintf("non-query opcode %d answered with %s, NOTIMP required", p.Opcode, dns.RcodeToString[m.Rcode]), ""
